@@ -11,6 +11,7 @@ import (
 	"os/exec"
 	"path/filepath"
 	"strconv"
+	"sync/atomic"
 	"time"
 
 	"verif/harness/plug"
@@ -29,6 +30,8 @@ func Available() bool {
 }
 
 // Run sends ops (each gets an "id" = its index) and returns the "out" objects in order.
+var waitedInVain atomic.Bool
+
 func Run(ops []map[string]any) ([]map[string]any, error) {
 	var in bytes.Buffer
 	for i, o := range ops {
@@ -40,9 +43,15 @@ func Run(ops []map[string]any) ([]map[string]any, error) {
 		in.Write(b)
 		in.WriteByte('\n')
 	}
-	// the binary is briefly absent while `lake build` relinks it: wait rather than fail
-	for w := 0; w < 180 && !Available(); w++ {
-		time.Sleep(500 * time.Millisecond)
+	// the binary is briefly absent while `lake build` relinks it: wait rather than fail — once per
+	// process (when the model does not build at all, every later call would wait in vain)
+	if !waitedInVain.Load() {
+		for w := 0; w < 120 && !Available(); w++ {
+			time.Sleep(500 * time.Millisecond)
+		}
+		if !Available() {
+			waitedInVain.Store(true)
+		}
 	}
 	cmd := exec.Command(Path())
 	cmd.Stdin = &in
